@@ -279,6 +279,32 @@ CHECKS = [
               "the expected coupling pairs. A gmsh catalogue (non-axis-aligned, X/T/L/Y) and non-uniform tensor grids are judged by the predicates in fixed point.",
          note="Includes Cartesian md-grids with physical dimensions different from the cell counts (non-representable and non-dividing cell sizes) through cart_grid(physdims=) and create_mdg. Float-judged clauses on the simplex/tensor families (tolerance policy, 0 inconclusive). One known finding (partially overlapping intersection segments make "
               "split_intersections raise, order dependent; thorough tier only). Overlapping/duplicated fractures are outside the family."),
+    dict(id="C04", level=EX, technique="TLC model-checks an exact flux ledger of mixed-dimensional networks (spec/ref/ConservationEnum.tla: conservation law, per-interface cancellation, "
+         "seven corruptions each shown to break it) and judges data recorded from real SinglePhaseFlow / MassAndEnergyBalance models (J_Conservation): the real divergence and "
+         "mortar projections as a ledger network (exact), measured unit-interface-flux -> residual columns and residual / accumulation sums for random states in 60-bit fixed point",
+         text="Design: TotalResidual = TotalAccumulationRate proved by TLC on all enumerated small networks (1-3 subdomains of dimension 2/1/0, 0-2 interfaces, matching and "
+              "non-matching mortars, both face orientations, integer fluxes). Binding: closed-boundary, source-free models on md-grids with 0-3 fractures (X/T/L intersections, immersed "
+              "tips, tilted fracture, non-matching fracture/mortar grids, 3D with 1-3 orthogonal planes; Cartesian and simplex; compressible and incompressible; MPFA, TPFA, "
+              "differentiable TPFA). TLC checks that every divergence column is +-1 / {+1,-1}, that mortar weights partition unity onto internal-boundary faces / lower-dimensional "
+              "cells, that the real incidence data are a well-formed ledger instance that conserves exactly, that each measured interface-flux column cancels between the higher and "
+              "lower dimension, and for random states of all primary variables (current iterate and previous time step) that the summed mass / energy residuals equal the summed "
+              "accumulation rates (<= 1e-9 scale pass, > 1e-6 scale violation; scale = sum |div||flux| + |source|), plus per-interface cancellation.",
+         note="Only the ledger part is exhaustive within its bounds; the statement part is sampled (11 models x 2 states quick, 121 x 8 thorough). Not covered: wells (codimension-2 "
+              "interfaces), gravity / vector sources, external sources, multiphase / compositional and poromechanics models, non-constant dt; 3D limited to orthogonal planes in a unit "
+              "cube. The sign convention of interface fluxes is not judged. One known finding (differentiable TPFA drops the interface flux on internal boundary faces: energy created; "
+              "the one-line repair contradicts a pinned test, see DESIGN 11.3)."),
+    dict(id="C14", level=EX, technique="TLC enumerates, on incidences exported from real grids, the split / partial-update / inverter variants with the max_memory values that force each "
+         "sub-problem count, the update footprints and the model laws (spec/ref/SplitInvarianceEnum.tla: LawCover, LawFootprint, LawMem ...) and judges every stored matrix entry "
+         "of the variant against the one-piece discretisation in 39-bit fixed point (J_SplitInvariance)",
+         text="MPFA, MPSA and Biot on Cartesian / simplex, plain and perturbed 2D grids (thorough: also small 3D grids), homogeneous / heterogeneous / full tensors, boundary modes "
+              "dir / neu / mixed / Robin / component-wise: the matrices of (a) the other local inverter, (b) a split into k in {1,2,3,n_cells} sub-problems requested by "
+              "num_subproblems or max_memory, (c) partial discretisation on specified cells / faces / nodes requested as fresh discretisation, by the update flag or by "
+              "update_discretization(), (d) partial + split, must equal the one-piece matrices on the targeted rows (all rows for a and b; the documented footprint for c) and the "
+              "old matrices elsewhere. Entries within 1e-9 of the matrix scale pass, beyond 1e-6 are violations. Exceptions of the code are observations (Completes).",
+         note="Metamorphic (code against itself): consistency of the one-piece matrices is C11/C13/C15. Selection of configurations x request sets is sampled with the seed (200 "
+              "variants quick, ~1750 thorough). Not covered: combined specified_cells/_faces/_nodes requests (documented as untested), metis partitioning (not installed), "
+              "fractured / embedded / 1D grids, grids above 16 cells (2D) / 12 cells (3D). Two known findings (the Biot update flag always raises TypeError; a singular corner "
+              "system in the overlap with the python inverter)."),
     dict(id="C32", level=TV, technique="TLC enumerates directions (all Pythagorean quadruples up to a bound, signed permutations, generic integer and nearly parallel directions), point "
          "sets and angles (spec/ref/OrthoMapsEnum.tla) and judges the returned matrices by integer identities or 39-bit fixed-point limb arithmetic (J_OrthoMaps)",
          text="project_plane_matrix, project_line_matrix, rotation_matrix, compute_normal and TangentialNormalProjection: rows and columns orthonormal (distances preserved), "
@@ -298,8 +324,6 @@ CHECKS = [
 _NOT_BUILT = "check not built yet (planned, DESIGN.md section 10); not claimed until its commands are green on the unchanged tree"
 NOT_APPLICABLE = [
     dict(property_id="C03", reason="only oracle is a finite-difference derivative of the implementation's own residual; no discrete/rational reference a TLA+ spec could state (DESIGN.md section 6)"),
-    dict(property_id="C04", reason="identity about real-valued residual sums of full nonlinear models; binding would be a floating-point sum, the discrete content is covered by C21/C26/C27/C17 (DESIGN.md section 6)"),
-    dict(property_id="C14", reason="metamorphic equality of floating-point matrices against the implementation itself; no reference semantics to specify (DESIGN.md section 6)"),
 ]
 _claimed = {c["id"] for c in CHECKS}
 _na = {c["property_id"] for c in NOT_APPLICABLE}
